@@ -171,14 +171,28 @@ const (
 	hzAnyFanIn     = "fanin-any-typed"
 	hzMissingInKey = "missing-input-key"
 	hzMissingMapK  = "missing-mapped-key"
+	// not "undefined" (the value is what Invoke returns), but known to fail in the stream forms:
+	// several non-nil chunks arrive where an interface type is declared and must be concatenated
+	hzChunksIface = "chunks-into-interface-input"
+	// likewise: a map that may arrive in several chunks is the source of a mapping FromField(k) onto
+	// the whole input of a pointer-typed successor; every chunk without k becomes a fresh non-nil
+	// pointer in the stream forms
+	hzPtrWhole = "chunked-map-mapped-onto-pointer-input"
 )
+
+// softOrder: the marks in the order in which a deviation is attributed to them.
+var softOrder = []string{hzPtrWhole, hzChunksIface}
 
 type rres struct {
 	Val    any
 	Fail   string // the run must fail in every paradigm (reason class)
 	Hazard string // result undefined (one of the hz constants)
-	Events map[string]bool
-	Execs  int
+	// Soft: conditions under which the stream forms are known to fail although the value is
+	// defined (hzChunksIface, hzPtrWhole)
+	Soft     map[string]bool
+	OutMulti bool
+	Events      map[string]bool
+	Execs       int
 }
 
 func (r *rres) event(e string) {
@@ -188,17 +202,36 @@ func (r *rres) event(e string) {
 	r.Events[e] = true
 }
 
+func (r *rres) soft(m string) {
+	if r.Soft == nil {
+		r.Soft = map[string]bool{}
+	}
+	r.Soft[m] = true
+}
+
 func (r *rres) stopped() bool { return r.Fail != "" || r.Hazard != "" }
 
+// siteEvents: the nil sites that name a violation signature (where an untyped nil meets a
+// mechanism of the framework); the other events are only counted.
+var siteEvents = map[string]bool{
+	"nil-node-input": true, "nil-branch-input": true, "nil-under-input-key": true, "nil-under-output-key": true,
+	"nil-at-fan-in": true, "nil-mapped": true, "nil-at-END": true,
+}
+
 func (r *rres) eventsStr() string {
-	if len(r.Events) == 0 {
-		return "plain"
-	}
-	ks := make([]string, 0, len(r.Events))
+	var ks []string
 	for k := range r.Events {
-		ks = append(ks, k)
+		if siteEvents[k] {
+			ks = append(ks, k)
+		}
+	}
+	if len(ks) == 0 {
+		return "no-nil-site"
 	}
 	sort.Strings(ks)
+	if len(ks) > 2 {
+		ks = append(ks[:2:2], "more")
+	}
 	return strings.Join(ks, "+")
 }
 
@@ -212,10 +245,23 @@ func (r *rres) String() string {
 	return "value " + canon(r.Val)
 }
 
-// pend: a value on its way to the next consumer, with the type it was declared as.
+// pend: a value on its way to the next consumer, with the type it was declared as. Multi: in
+// stream form it may arrive as two or more non-nil chunks.
 type pend struct {
-	V  any
-	Ty ty
+	V     any
+	Ty    ty
+	Multi bool
+}
+
+// splittable: may splitVal cut v, declared as static, into several chunks.
+func splittable(v any, static ty) bool {
+	switch x := v.(type) {
+	case string:
+		return static == tStr
+	case map[string]any:
+		return static == tMap && x != nil
+	}
+	return false
 }
 
 // edge: what crossing an edge from a declared type to a declared type does to a value.
@@ -238,16 +284,16 @@ func (r *rres) edge(v any, from, to ty) any {
 
 // deliver: the value a consumer declared as `to` sees, given what its predecessors sent.
 // One predecessor: the edge. Several: every edge, then eino's fan-in merge.
-func (r *rres) deliver(ps []pend, to ty) any {
+func (r *rres) deliver(ps []pend, to ty) (any, bool) {
 	if len(ps) == 1 {
-		return r.edge(ps[0].V, ps[0].Ty, to)
+		return r.edge(ps[0].V, ps[0].Ty, to), ps[0].Multi
 	}
 	vals := make([]any, len(ps))
 	statics := make([]ty, len(ps))
 	for i, p := range ps {
 		vals[i] = r.edge(p.V, p.Ty, to)
 		if r.stopped() {
-			return nil
+			return nil, false
 		}
 		statics[i] = p.Ty
 		if latOf(p.Ty, to) == latMay {
@@ -258,7 +304,7 @@ func (r *rres) deliver(ps []pend, to ty) any {
 		if v == nil {
 			r.event("nil-at-fan-in")
 			r.Fail = "fan-in-of-nil"
-			return nil
+			return nil, false
 		}
 	}
 	valueOK, dup := true, false
@@ -292,12 +338,12 @@ func (r *rres) deliver(ps []pend, to ty) any {
 	case !streamOK:
 		r.Hazard = hzAnyFanIn
 	default:
-		return merged
+		return merged, true // one chunk per predecessor at least
 	}
-	return nil
+	return nil, false
 }
 
-// takeField: the field / key `f` of a value declared as `from`.
+// fieldTy: the declared type of field / key `f` of a value declared as t.
 func fieldTy(t ty, f string) (ty, bool) {
 	switch t {
 	case tRec, tPtr:
@@ -414,6 +460,9 @@ func (r *rres) mapOne(v any, from ty, m *fmapSpec, to ty) any {
 		}
 	}
 	if m.To == "" {
+		if taken == nil {
+			return zeroOf(to) // the successor sees the nil value of its own declared type
+		}
 		return taken
 	}
 	switch to {
@@ -435,7 +484,7 @@ func (r *rres) mapOne(v any, from ty, m *fmapSpec, to ty) any {
 
 // consume: what the consumer declared as `to` receives: over a plain edge, a mapped edge
 // (workflow), or a mapped fan-in (workflow: predecessor i goes ToField(join[i])).
-func (r *rres) consume(ps []pend, to ty, m *fmapSpec, join []string) any {
+func (r *rres) consume(ps []pend, to ty, m *fmapSpec, join []string) (any, bool) {
 	if join != nil {
 		merged := map[string]any{}
 		for i, p := range ps {
@@ -444,33 +493,41 @@ func (r *rres) consume(ps []pend, to ty, m *fmapSpec, join []string) any {
 			}
 			merged[join[i]] = p.V
 		}
-		return merged
+		return merged, true
 	}
 	if m != nil {
-		return r.mapOne(ps[0].V, ps[0].Ty, m, to)
+		if _, isMap := ps[0].V.(map[string]any); isMap && ps[0].Multi && m.From != "" && m.To == "" && to == tPtr {
+			r.soft(hzPtrWhole)
+		}
+		return r.mapOne(ps[0].V, ps[0].Ty, m, to), ps[0].Multi
 	}
 	return r.deliver(ps, to)
 }
 
+// refEnv: what the reference has to know about the run besides the spec.
+type refEnv struct {
+	atomic bool // every producer emits a single chunk
+}
+
 // runNode: a node body applied to its (already delivered) input.
-func (r *rres) runNode(n *tnode, in any) any {
+func (r *rres) runNode(n *tnode, in any, multi bool, env refEnv) (any, bool) {
 	if n.InKey != "" {
 		m, ok := in.(map[string]any)
 		if !ok {
 			r.Fail = "harness: keyed node got " + canon(in)
-			return nil
+			return nil, false
 		}
 		v, present := m[n.InKey]
 		if !present {
 			r.Hazard = hzMissingInKey
-			return nil
+			return nil, false
 		}
 		if v == nil {
 			r.event("nil-under-input-key")
 		}
 		if !dynOK(v, n.In) {
 			r.Fail = "input-key-type-check"
-			return nil
+			return nil, false
 		}
 		in = v
 	}
@@ -480,16 +537,19 @@ func (r *rres) runNode(n *tnode, in any) any {
 		if in == nil {
 			r.event("nil-into-nested")
 		}
-		sub := evalSpec(n.Sub, in)
+		sub := evalSpec(n.Sub, in, multi, env)
 		r.Execs += sub.Execs
 		for e := range sub.Events {
 			r.event(e)
 		}
+		for m := range sub.Soft {
+			r.soft(m)
+		}
 		if sub.stopped() {
 			r.Fail, r.Hazard = sub.Fail, sub.Hazard
-			return nil
+			return nil, false
 		}
-		out = sub.Val
+		out, multi = sub.Val, sub.OutMulti
 		if out == nil {
 			r.event("nil-out-of-nested")
 		}
@@ -499,8 +559,15 @@ func (r *rres) runNode(n *tnode, in any) any {
 		if in == nil {
 			r.event("nil-node-input")
 		}
+		if multi && isIface(n.In) {
+			r.soft(hzChunksIface)
+		}
 		r.Execs++
 		out = n.body(in)
+		if !(n.Dyn == dSame && n.Lazy && n.Para&pT != 0) {
+			// (an untyped nil may come as several nil chunks, which an output key turns into maps)
+			multi = !env.atomic && n.Para&(pS|pT) != 0 && (splittable(out, n.Out) || out == nil)
+		}
 	}
 	if n.OutKey != "" {
 		if out == nil {
@@ -508,7 +575,7 @@ func (r *rres) runNode(n *tnode, in any) any {
 		}
 		out = map[string]any{n.OutKey: out}
 	}
-	return out
+	return out, multi
 }
 
 // body: the function a lambda node computes (shared by the reference and the real node).
@@ -531,74 +598,107 @@ func pickTarget(rule string, v any, k int) int {
 	return int(mon.HashStr(canon(v)) % uint64(k))
 }
 
-func evalSpec(s *tspec, in any) *rres {
+func zeroOf(t ty) any {
+	switch t {
+	case tStr:
+		return ""
+	case tPtr:
+		return (*Rec)(nil)
+	case tRec:
+		return Rec{}
+	case tMap:
+		return map[string]any(nil)
+	}
+	return nil
+}
+
+// segs evaluates the segments of s on cur. Once the evaluation has stopped (failure / undefined)
+// it only tracks the declared types, with zero values as stand-ins.
+func (r *rres) segs(s *tspec, cur []pend, env refEnv) []pend {
+	for _, sg := range s.Segs {
+		var next []pend
+		switch sg.Kind {
+		case "node":
+			n := sg.Nodes[0]
+			to, oty := n.effIn(), n.effOut()
+			if n.Pass {
+				to, oty = cur[0].Ty, cur[0].Ty
+			}
+			var out any
+			var multi bool
+			if !r.stopped() {
+				v, m := r.consume(cur, to, n.Map, n.JoinKeys)
+				if !r.stopped() {
+					out, multi = r.runNode(n, v, m, env)
+				}
+			}
+			next = []pend{{out, oty, multi}}
+		case "par":
+			for _, n := range sg.Nodes {
+				var out any
+				var multi bool
+				if !r.stopped() {
+					v, m := r.consume(cur, n.effIn(), n.Map, nil)
+					if !r.stopped() {
+						out, multi = r.runNode(n, v, m, env)
+					}
+				}
+				next = append(next, pend{out, n.effOut(), multi})
+			}
+		case "branch":
+			var out any
+			var multi bool
+			oty := sg.Nodes[0].effOut()
+			if !r.stopped() {
+				cv := r.edge(cur[0].V, cur[0].Ty, sg.CondTy)
+				if !r.stopped() {
+					if cv == nil {
+						r.event("nil-branch-input")
+					}
+					if cur[0].Multi && isIface(sg.CondTy) {
+						r.soft(hzChunksIface)
+					}
+					n := sg.Nodes[pickTarget(sg.CondRule, cv, len(sg.Nodes))]
+					oty = n.effOut()
+					v, m := r.consume(cur, n.effIn(), nil, nil)
+					if !r.stopped() {
+						out, multi = r.runNode(n, v, m, env)
+					}
+				}
+			}
+			next = []pend{{out, oty, multi}}
+		}
+		if r.stopped() {
+			for i := range next {
+				next[i].V, next[i].Multi = zeroOf(next[i].Ty), false
+			}
+		}
+		cur = next
+	}
+	return cur
+}
+
+// evalSpec: the reference result of the program s on the input `in` (inMulti: the input may arrive
+// as several non-nil chunks, which is the case for Collect / Transform calls and nested programs).
+func evalSpec(s *tspec, in any, inMulti bool, env refEnv) *rres {
 	r := &rres{}
 	if in == nil {
 		r.event("nil-graph-input")
 	}
-	cur := []pend{{in, s.In}}
-	for _, sg := range s.Segs {
-		switch sg.Kind {
-		case "node":
-			n := sg.Nodes[0]
-			to := n.effIn()
-			if n.Pass {
-				to = cur[0].Ty
-			}
-			v := r.consume(cur, to, n.Map, n.JoinKeys)
-			if r.stopped() {
-				return r
-			}
-			out := r.runNode(n, v)
-			if r.stopped() {
-				return r
-			}
-			oty := n.effOut()
-			if n.Pass {
-				oty = to
-			}
-			cur = []pend{{out, oty}}
-		case "par":
-			var next []pend
-			for _, n := range sg.Nodes {
-				v := r.consume(cur, n.effIn(), n.Map, nil)
-				if r.stopped() {
-					return r
-				}
-				out := r.runNode(n, v)
-				if r.stopped() {
-					return r
-				}
-				next = append(next, pend{out, n.effOut()})
-			}
-			cur = next
-		case "branch":
-			cv := r.edge(cur[0].V, cur[0].Ty, sg.CondTy)
-			if r.stopped() {
-				return r
-			}
-			if cv == nil {
-				r.event("nil-branch-input")
-			}
-			n := sg.Nodes[pickTarget(sg.CondRule, cv, len(sg.Nodes))]
-			v := r.consume(cur, n.effIn(), nil, nil)
-			if r.stopped() {
-				return r
-			}
-			out := r.runNode(n, v)
-			if r.stopped() {
-				return r
-			}
-			cur = []pend{{out, n.effOut()}}
-		}
+	cur := r.segs(s, []pend{{in, s.In, inMulti}}, env)
+	if r.stopped() {
+		return r
 	}
-	v := r.consume(cur, s.Out, s.EndMap, s.EndJoin)
+	v, multi := r.consume(cur, s.Out, s.EndMap, s.EndJoin)
 	if r.stopped() {
 		return r
 	}
 	if v == nil {
 		r.event("nil-at-END")
 	}
-	r.Val = v
+	if multi && isIface(s.Out) {
+		r.soft(hzChunksIface)
+	}
+	r.Val, r.OutMulti = v, multi
 	return r
 }
